@@ -50,7 +50,8 @@ def _make_module(fullname):
         CLS = '?'
 
         def __init__(self, name=None, **kwargs):
-            self.name = name
+            # REC.expand: the port reports the full name of the device it ended up on (rtmidi does)
+            self.name = ('%s:%s MIDI 1 20:0' % (name, name)) if (getattr(REC, 'expand', False) and name) else name
             self.closed = False
             self._messages = __import__('collections').deque()
             REC.calls.append((short, self.CLS, name, dict(kwargs)))
